@@ -3392,11 +3392,438 @@ Lemma raw_step_refused E st co :
   Sync E st -> refused (snd (c_step (cs st) co)) = true -> RawStep E st co.
 Proof. intros S H. apply raw_step_same; auto. now apply c_step_refused. Qed.
 
+(** ** Delete: unlink every object of the region, then cut *)
+
+Definition unlink1 (pr : list (string * string)) (T : tree) (op : path) : tree :=
+  unreg_link T pr (obj_schema (last_seg op)) (obj_uuid (last_seg op)).
+
+Lemma unlink_region_eq T pr region :
+  unlink_region T pr region = fold_left (unlink1 pr) (meta_objs T region) T.
+Proof. reflexivity. Qed.
+
+Definition minus (M L : list path) : list path :=
+  filter (fun x => negb (existsb (path_eqb x) L)) M.
+
+Lemma minus_cons M q L : minus M (q :: L) = minus (rm q M) L.
+Proof.
+  unfold minus, rm. rewrite filter_filter. apply filter_ext. intros x. simpl.
+  now rewrite negb_orb.
+Qed.
+
+Lemma minus_nil M : minus M [] = M.
+Proof. unfold minus. apply filter_all. auto. Qed.
+
+Lemma unlink_fold E pr : forall L M T,
+  TocOk E M T -> UidUniq M -> ProvOk E pr M -> NoDup L -> incl L M ->
+  TocOk E (minus M L) (fold_left (unlink1 pr) L T) /\
+  SameOutside T (fold_left (unlink1 pr) L T) /\ Restr T (fold_left (unlink1 pr) L T).
+Proof.
+  induction L as [|q L IH]; intros M T TO UQ PO ND Inc; cbn [fold_left].
+  - rewrite minus_nil. split; auto. split; [apply so_refl|apply restr_refl].
+  - inversion ND as [|? ? Nq ND']; subst.
+    assert (Iq : In q M) by (apply Inc; simpl; auto).
+    pose proof (ul_tocok E M T pr q TO UQ PO Iq) as TO1.
+    pose proof (ul_outside T pr q) as SO1.
+    pose proof (restr_unreg T pr (sch q) (uid q)) as R1.
+    change (unreg_link T pr (sch q) (uid q)) with (unlink1 pr T q) in *.
+    assert (Inc' : incl L (rm q M)).
+    { intros x I. apply in_rm. split; [apply Inc; simpl; auto|]. intros ->. contradiction. }
+    assert (PO' : ProvOk E pr (rm q M)).
+    { intros x I. apply in_rm in I as [I _]. now apply PO. }
+    destruct (IH (rm q M) (unlink1 pr T q) TO1 (uniq_rm q M UQ) PO' ND' Inc') as (A & B & C).
+    rewrite minus_cons. split; auto. split; [eapply so_trans; eauto|eapply restr_trans; eauto].
+Qed.
+
+Lemma is_meta_obj_of_obj p : is_obj_path p = true -> is_meta_obj p = true.
+Proof.
+  unfold is_obj_path. destruct (classify p) eqn:K; try discriminate. intros _.
+  apply classify_obj_inv in K as (-> & Hd & Hm & Hn). unfold is_meta_obj.
+  rewrite last_seg_app2. apply andb_true_intro. split.
+  - rewrite existsb_app. simpl. rewrite Hm. now rewrite orb_true_r.
+  - apply negb_true_iff. destruct (meta_seg name) eqn:X; auto.
+    apply meta_seg_reserved in X. congruence.
+Qed.
+
+Lemma existsb_meta_user p : has_reserved p = false -> existsb meta_seg p = false.
+Proof.
+  induction p as [|x p IH]; simpl; auto. intros H. apply orb_false_iff in H as [H1 H2].
+  rewrite (IH H2), orb_false_r. destruct (meta_seg x) eqn:X; auto.
+  apply meta_seg_reserved in X. congruence.
+Qed.
+
+Lemma meta_objs_eq E T n pr region :
+  SyncRaw E T n pr -> in_toc region = false -> region <> [] ->
+  meta_objs T region = filter (fun p => is_prefix region p) (objs T).
+Proof.
+  intros S Ir NE. unfold meta_objs, objs. rewrite filter_filter. apply filter_ext_in.
+  intros p I. rewrite andb_comm. destruct (is_prefix region p) eqn:P; simpl; [|now rewrite !andb_false_r].
+  rewrite !andb_true_r. apply in_keys_t_has in I. unfold t_has in I.
+  destruct (t_get T p) as [o|] eqn:G; [|discriminate].
+  assert (Ip : in_toc p = false).
+  { destruct (in_toc p) eqn:X; auto. apply in_toc_inv in X as (r & ->).
+    destruct region as [|a region]; [contradiction|]. rewrite is_prefix_cons in P.
+    apply andb_prop in P as [P _]. apply String.eqb_eq in P. subst. now rewrite in_toc_cons in Ir. }
+  pose proof (sraw_shape E T n pr p o S G Ip) as Sh. unfold is_obj_path.
+  destruct (classify p) eqn:K; try contradiction.
+  - apply classify_user_inv in K. unfold is_meta_obj. now rewrite (existsb_meta_user p K).
+  - apply classify_dir_inv in K as (-> & Hd & Hm). unfold is_meta_obj.
+    now rewrite last_seg_app, Hm, andb_false_r.
+  - apply is_meta_obj_of_obj. unfold is_obj_path. now rewrite K.
+Qed.
+
+Lemma minus_filter_prefix M region :
+  minus M (filter (fun p => is_prefix region p) M) = filter (fun p => negb (is_prefix region p)) M.
+Proof.
+  unfold minus. apply filter_ext_in. intros x I. f_equal.
+  apply Bool.eq_iff_eq_true. rewrite existsb_exists. split.
+  - intros (y & Iy & E). apply path_eqb_eq in E. subst y. now apply filter_In in Iy as [_ Iy].
+  - intros P. exists x. split; [|apply path_eqb_refl]. apply filter_In. auto.
+Qed.
+
+Lemma NoDup_objs T : NoDup (map fst T) -> NoDup (objs T).
+Proof. intros H. unfold objs. now apply NoDup_filter. Qed.
+
+(** Nothing lies below a dataset. *)
+Lemma below_is_group E T n pr q : forall r,
+  SyncRaw E T n pr -> r <> [] -> t_has T (q ++ r) = true -> is_group (t_get T q) = true.
+Proof.
+  induction r as [|x r IH] using rev_ind; intros S NE H; [contradiction|].
+  unfold t_has in H. destruct (t_get T (q ++ r ++ [x])) as [o|] eqn:G; [|discriminate].
+  assert (NEp : q ++ r ++ [x] <> []) by (rewrite app_assoc; apply app1_nonempty).
+  pose proof (sraw_parent E T n pr _ o S G NEp) as PG.
+  rewrite app_assoc, parent_app1 in PG.
+  destruct r as [|y r'].
+  - now rewrite app_nil_r in PG.
+  - apply IH; auto; [discriminate|]. unfold t_has.
+    destruct (t_get T (q ++ y :: r')); [auto|discriminate].
+Qed.
+
+Lemma below_data_absent E T n pr q p :
+  SyncRaw E T n pr -> is_data (t_get T q) = true -> is_prefix q p = true -> p <> q ->
+  t_has T p = false.
+Proof.
+  intros S D P NE. destruct (t_has T p) eqn:H; auto. exfalso.
+  rewrite (is_prefix_split q p P) in H, NE.
+  destruct (skipn (List.length q) p) as [|y l] eqn:K.
+  - rewrite app_nil_r in NE. contradiction.
+  - assert (G : is_group (t_get T q) = true).
+    { apply (below_is_group E T n pr q (y :: l) S); auto. discriminate. }
+    destruct (t_get T q) as [[[|?] ?]|]; simpl in *; discriminate.
+Qed.
+
+Lemma owner_ok_transfer E T T' n pr d m :
+  SyncRaw E T n pr -> has_reserved d = false -> owner_ok T d m = true ->
+  (is_group (t_get T d) = true -> t_get T' d = t_get T d) ->
+  (let x := drop_str (String.length METADOR_META_PREF) m in
+   is_data (t_get T (d ++ [x])) = true -> in_toc (d ++ [x]) = false ->
+   t_get T' (d ++ [x]) = t_get T (d ++ [x])) ->
+  owner_ok T' d m = true.
+Proof.
+  intros S Hd O Hg Hx. unfold owner_ok in *. cbv zeta in *.
+  set (x0 := drop_str (String.length METADOR_META_PREF) m) in *. clearbody x0.
+  destruct (String.eqb x0 "").
+  - now rewrite Hg.
+  - rewrite Hx; auto.
+    destruct (in_toc (d ++ [x0])) eqn:X; auto. exfalso. apply in_toc_inv in X as (r & X).
+    destruct d as [|a d']; cbn [app] in X; inversion X; subst.
+    + pose proof (sat_group _ (sr_tocok _ _ _ _ S toc_segs eq_refl)) as G.
+      cbn [app] in O. unfold toc_segs in G.
+      destruct (t_get T [toc_seg]) as [[[|?] ?]|]; simpl in *; discriminate.
+    + simpl in Hd. discriminate.
+Qed.
+
+Lemma user_prefix_of_meta q : forall d m r,
+  has_reserved q = false -> reserved_seg m = true -> is_prefix q (d ++ m :: r) = true ->
+  is_prefix q d = true.
+Proof.
+  induction q as [|x q IH]; intros d m r Hq Hm P; simpl; auto.
+  simpl in Hq. apply orb_false_iff in Hq as [Hx Hq].
+  destruct d as [|a d]; cbn [app] in P; rewrite is_prefix_cons in P; apply andb_prop in P as [P1 P2].
+  - apply String.eqb_eq in P1. subst. congruence.
+  - rewrite P1. simpl. eapply IH; eauto.
+Qed.
+
+Lemma sraw_entry_dir E T n pr d m x :
+  SyncRaw E T n pr -> has_reserved d = false -> meta_seg m = true ->
+  t_get T (d ++ [m]) = Some x ->
+  owner_ok T d m = true /\ exists y, t_has T (d ++ [m; y]) = true.
+Proof.
+  intros S Hd Hm G. pose proof (sr_entries _ _ _ _ S _ _ G) as C. unfold chk_entry in C.
+  apply andb_prop in C as [_ C]. rewrite (classify_dir d m Hd Hm) in C.
+  apply andb_prop in C as [C C3]. apply andb_prop in C as [_ C2]. split; auto.
+  apply has_children_iff in C3 as (c & C3 & C4). apply is_child_iff in C3 as (y & ->).
+  exists y. now rewrite <- app_assoc1.
+Qed.
+
+Lemma delete_group_raw E T n pr q :
+  SyncRaw E T n pr -> has_reserved q = false -> q <> [] ->
+  is_group (t_get T q) = true ->
+  SyncRaw E (t_cut q (unlink_region T pr q)) n pr.
+Proof.
+  intros S Uq NE Gq. set (M := objs T).
+  assert (Iq : in_toc q = false).
+  { destruct (in_toc q) eqn:X; auto. apply in_toc_reserved in X. congruence. }
+  rewrite unlink_region_eq, (meta_objs_eq E T n pr q S Iq NE). fold M.
+  set (L := filter (fun p => is_prefix q p) M).
+  assert (TO : TocOk E M T) by (intros p I; apply (sr_tocok _ _ _ _ S p I)).
+  pose proof (sraw_uniq E T n pr S) as UQ. fold M in UQ.
+  assert (PO : ProvOk E pr M) by (intros x I; apply (sr_prov _ _ _ _ S x I)).
+  assert (NDL : NoDup L) by (apply NoDup_filter, NoDup_objs, (sr_nodup _ _ _ _ S)).
+  assert (IncL : incl L M) by (intros x I; now apply filter_In in I as [I _]).
+  destruct (unlink_fold E pr L M T TO UQ PO NDL IncL) as (TO1 & (SO1 & SO2 & SO3) & R1).
+  set (T1 := fold_left (unlink1 pr) L T) in *.
+  unfold L in TO1. rewrite minus_filter_prefix in TO1.
+  set (T3 := t_cut q T1).
+  assert (R3 : Restr T T3) by (eapply restr_trans; [exact R1|apply restr_cut]).
+  assert (L3 : forall p, is_prefix q p = false -> in_toc p = false -> t_get T3 p = t_get T p).
+  { intros p Hp Ip. unfold T3. rewrite t_get_cut, Hp. now apply SO1. }
+  assert (L3toc : forall p, in_toc p = true -> t_get T3 p = t_get T1 p).
+  { intros p Ip. unfold T3. rewrite t_get_cut. destruct (is_prefix q p) eqn:X; auto. exfalso.
+    destruct q as [|a q']; [contradiction|].
+    destruct p as [|b p']; [discriminate|]. rewrite is_prefix_cons in X.
+    apply andb_prop in X as [X _]. apply String.eqb_eq in X. subst.
+    simpl in Ip, Iq. congruence. }
+  assert (O3 : objs T3 = filter (fun p => negb (is_prefix q p)) M).
+  { unfold T3. now rewrite objs_cut, SO2. }
+  constructor.
+  - unfold T3. apply nodup_cut, SO3, (sr_nodup _ _ _ _ S).
+  - rewrite L3; auto. + apply (sr_root _ _ _ _ S). + destruct q; [contradiction|reflexivity].
+  - intros p o' Gp. destruct (in_toc p) eqn:Ip.
+    + apply (toc_entries_ok E (filter (fun p0 => negb (is_prefix q p0)) M)); auto.
+      * intros p0 I0. rewrite (L3toc p0 I0). now apply TO1.
+      * rewrite L3; auto. apply (sr_root _ _ _ _ S). destruct q; [contradiction|reflexivity].
+    + apply (restr_entries E T T3 n pr S R3); auto.
+      intros d m y Hd Hm Gy.
+      assert (Pd : is_prefix q (d ++ [m]) = false).
+      { unfold T3 in Gy. rewrite t_get_cut in Gy. destruct (is_prefix q (d ++ [m])); [discriminate|auto]. }
+      assert (Pdd : is_prefix q d = false).
+      { destruct (is_prefix q d) eqn:X; auto.
+        rewrite (is_prefix_trans q d (d ++ [m])) in Pd; auto. apply is_prefix_app. }
+      pose proof (proj1 R3 _ _ Gy) as Gy0.
+      destruct (sraw_entry_dir E T n pr d m y S Hd Hm Gy0) as (Ow & c & Hc).
+      split.
+      * apply (owner_ok_transfer E T T3 n pr d m S Hd Ow).
+        -- intros _. apply L3; auto. destruct (in_toc d) eqn:X; auto.
+           apply in_toc_reserved in X. congruence.
+        -- intros x Dx Ix. clearbody x. apply L3; auto.
+           destruct (is_prefix q (d ++ [x])) eqn:X; auto. exfalso.
+           pose proof (is_prefix_split q _ X) as Sp.
+           destruct (skipn (List.length q) (d ++ [x])) as [|z l] eqn:K.
+           ++ rewrite app_nil_r in Sp. rewrite Sp in Dx.
+              destruct (t_get T q) as [[[|?] ?]|]; simpl in *; discriminate.
+           ++ assert (is_prefix q d = true); [|congruence].
+              assert (E1 : d ++ [x] = (q ++ removelast (z :: l)) ++ [last (z :: l) ""]).
+              { rewrite Sp at 1. rewrite <- app_assoc. f_equal. apply app_removelast_last. discriminate. }
+              apply app_inj_tail in E1 as [-> _]. apply is_prefix_app.
+      * apply has_children_iff. exists (d ++ [m; c]). split.
+        -- apply is_child_iff. exists c. now rewrite app_assoc1.
+        -- unfold t_has in *. destruct (t_get T (d ++ [m; c])) as [g|] eqn:Gc; [|discriminate].
+           destruct (sraw_obj_name E T n pr d m c g S Hd Hm Gc) as [Cc _].
+           rewrite L3, Gc; auto.
+           ++ destruct (is_prefix q (d ++ [m; c])) eqn:X; auto.
+              rewrite (user_prefix_of_meta q d m [c] Uq (meta_seg_reserved m Hm) X) in Pdd. discriminate.
+           ++ apply obj_not_toc. unfold is_obj_path. now rewrite Cc.
+  - rewrite O3. intros p Ip. rewrite (L3toc p Ip). now apply TO1.
+  - intros x I. rewrite O3 in I. apply filter_In in I as [I _]. apply (sr_prov _ _ _ _ S x I).
+Qed.
+
+Lemma starts_with_split p s : starts_with p s = true -> s = (p ++ drop_str (String.length p) s)%string.
+Proof.
+  revert s. induction p as [|a p IH]; intros s H; simpl in *; auto.
+  destruct s as [|b s]; [discriminate|]. apply andb_prop in H as [H1 H2].
+  apply Ascii.eqb_eq in H1. subst. simpl. f_equal. now apply IH.
+Qed.
+
+Lemma delete_data_raw E T n pr q :
+  SyncRaw E T n pr -> has_reserved q = false -> q <> [] -> last_seg q <> "" ->
+  is_data (t_get T q) = true ->
+  SyncRaw E (t_cut q (t_cut (meta_dir_of q true) (unlink_region T pr (meta_dir_of q true)))) n pr.
+Proof.
+  intros S Uq NE Lq Dq. set (M := objs T).
+  destruct (meta_dir_shape q true Uq (fun _ => NE)) as (dd & mm & Hmd & Udd & Mmm & _ & Sd).
+  destruct (Sd eq_refl) as [Sq Sm]. set (md := meta_dir_of q true) in *.
+  assert (Imd : in_toc md = false) by (rewrite Hmd; now apply dir_not_toc).
+  assert (NEmd : md <> []) by (rewrite Hmd; apply app1_nonempty).
+  assert (Rmd : has_reserved md = true).
+  { rewrite Hmd, has_reserved_app. simpl. rewrite (meta_seg_reserved mm Mmm). now rewrite orb_true_r. }
+  assert (Iq : in_toc q = false).
+  { destruct (in_toc q) eqn:X; auto. apply in_toc_reserved in X. congruence. }
+  rewrite unlink_region_eq, (meta_objs_eq E T n pr md S Imd NEmd). fold M.
+  set (L := filter (fun p => is_prefix md p) M).
+  assert (TO : TocOk E M T) by (intros p I; apply (sr_tocok _ _ _ _ S p I)).
+  pose proof (sraw_uniq E T n pr S) as UQ. fold M in UQ.
+  assert (PO : ProvOk E pr M) by (intros x I; apply (sr_prov _ _ _ _ S x I)).
+  assert (NDL : NoDup L) by (apply NoDup_filter, NoDup_objs, (sr_nodup _ _ _ _ S)).
+  assert (IncL : incl L M) by (intros x I; now apply filter_In in I as [I _]).
+  destruct (unlink_fold E pr L M T TO UQ PO NDL IncL) as (TO1 & (SO1 & SO2 & SO3) & R1).
+  set (T1 := fold_left (unlink1 pr) L T) in *.
+  unfold L in TO1. rewrite minus_filter_prefix in TO1.
+  set (T3 := t_cut q (t_cut md T1)).
+  assert (R3 : Restr T T3).
+  { eapply restr_trans; [exact R1|]. eapply restr_trans; apply restr_cut. }
+  assert (L3 : forall p, is_prefix md p = false -> is_prefix q p = false -> in_toc p = false ->
+                         t_get T3 p = t_get T p).
+  { intros p H1 H2 Ip. unfold T3. rewrite !t_get_cut, H1, H2. now apply SO1. }
+  assert (NoToc : forall c p, in_toc c = false -> c <> [] -> in_toc p = true -> is_prefix c p = false).
+  { intros c p Ic NEc Ip. destruct (is_prefix c p) eqn:X; auto. exfalso.
+    destruct c as [|a c']; [contradiction|]. destruct p as [|b p']; [discriminate|].
+    rewrite is_prefix_cons in X. apply andb_prop in X as [X _]. apply String.eqb_eq in X. subst.
+    simpl in Ip, Ic. congruence. }
+  assert (L3toc : forall p, in_toc p = true -> t_get T3 p = t_get T1 p).
+  { intros p Ip. unfold T3. rewrite !t_get_cut, (NoToc q p), (NoToc md p); auto. }
+  assert (BelowQ : forall p, is_prefix q p = true -> p <> q -> t_has T p = false).
+  { intros p P Np. now apply (below_data_absent E T n pr q p S Dq). }
+  assert (O3 : objs T3 = filter (fun p => negb (is_prefix md p)) M).
+  { unfold T3. rewrite !objs_cut, SO2. fold M. apply filter_all. intros x I.
+    apply filter_In in I as [I _]. apply negb_true_iff. destruct (is_prefix q x) eqn:X; auto.
+    exfalso. pose proof (objs_all_obj T x I) as Ox. apply in_objs in I as [Px _].
+    rewrite BelowQ in Px; auto; [discriminate|]. intros ->.
+    unfold is_obj_path in Ox. now rewrite (classify_user q Uq) in Ox. }
+  assert (MdGroup : forall g, t_get T md = Some g -> is_group (Some g) = true).
+  { intros g G. rewrite Hmd in G. now apply (sraw_dir_group E T n pr dd mm g S). }
+  constructor.
+  - unfold T3. repeat apply nodup_cut. apply SO3, (sr_nodup _ _ _ _ S).
+  - rewrite L3; auto; try (destruct q; [contradiction|reflexivity]).
+    + apply (sr_root _ _ _ _ S).
+    + rewrite Hmd. destruct dd; reflexivity.
+  - intros p o' Gp. destruct (in_toc p) eqn:Ip.
+    + apply (toc_entries_ok E (filter (fun p0 => negb (is_prefix md p0)) M)); auto.
+      * intros p0 I0. rewrite (L3toc p0 I0). now apply TO1.
+      * rewrite L3; auto; try (destruct q; [contradiction|reflexivity]).
+        -- apply (sr_root _ _ _ _ S).
+        -- rewrite Hmd. destruct dd; reflexivity.
+    + apply (restr_entries E T T3 n pr S R3); auto.
+      intros d m y Hd Hm Gy.
+      assert (Pd : is_prefix md (d ++ [m]) = false /\ is_prefix q (d ++ [m]) = false).
+      { unfold T3 in Gy. rewrite !t_get_cut in Gy.
+        destruct (is_prefix q (d ++ [m])); [discriminate|].
+        destruct (is_prefix md (d ++ [m])); [discriminate|auto]. }
+      destruct Pd as [Pd1 Pd2].
+      assert (Pdd : is_prefix q d = false).
+      { destruct (is_prefix q d) eqn:X; auto.
+        rewrite (is_prefix_trans q d (d ++ [m])) in Pd2; auto. apply is_prefix_app. }
+      pose proof (proj1 R3 _ _ Gy) as Gy0.
+      destruct (sraw_entry_dir E T n pr d m y S Hd Hm Gy0) as (Ow & c & Hc).
+      split.
+      * apply (owner_ok_transfer E T T3 n pr d m S Hd Ow).
+        -- intros _. apply L3; auto.
+           ++ now apply user_not_under.
+           ++ destruct (in_toc d) eqn:X; auto. apply in_toc_reserved in X. congruence.
+        -- intros x Dx Ix. apply L3; auto.
+           ++ (* the owner is not below [md] *)
+              destruct (is_prefix md (d ++ [x])) eqn:X; auto. exfalso.
+              pose proof (is_prefix_split md _ X) as Sp. rewrite Hmd in Sp.
+              destruct (skipn _ _) as [|z l] eqn:K in Sp.
+              ** rewrite app_nil_r, <- Hmd in Sp. rewrite Sp in Dx.
+                 destruct (t_get T md) as [g|] eqn:Gm; [|discriminate].
+                 pose proof (MdGroup g eq_refl) as GG.
+                 destruct g as [[|?] ?]; simpl in *; discriminate.
+              ** assert (has_reserved d = true); [|congruence].
+                 assert (E1 : d ++ [x] = (dd ++ [mm] ++ removelast (z :: l)) ++ [last (z :: l) ""]).
+                 { rewrite Sp at 1. rewrite <- !app_assoc. f_equal. f_equal.
+                   apply app_removelast_last. discriminate. }
+                 apply app_inj_tail in E1 as [-> _]. rewrite !has_reserved_app. simpl.
+                 rewrite (meta_seg_reserved mm Mmm). now rewrite orb_true_r.
+           ++ (* nor is it [q] or below [q] *)
+              destruct (is_prefix q (d ++ [x])) eqn:X; auto. exfalso.
+              destruct (list_eq_dec string_dec (d ++ [x]) q) as [Eq|Nq].
+              ** (* then the directory is the sidecar of [q] *)
+                 rewrite Sq in Eq. apply app_inj_tail in Eq as [Ed Ex].
+                 assert (m = mm).
+                 { rewrite Sm, <- Ex. unfold x. apply starts_with_split. exact Hm. }
+                 subst d m. rewrite <- Hmd, is_prefix_refl in Pd1. discriminate.
+              ** rewrite (BelowQ _ X Nq) in Dx || (unfold t_has in *; pose proof (BelowQ _ X Nq) as B;
+                   unfold t_has in B; destruct (t_get T (d ++ [x])); simpl in *; discriminate).
+      * apply has_children_iff. exists (d ++ [m; c]). split.
+        -- apply is_child_iff. exists c. now rewrite app_assoc1.
+        -- unfold t_has in Hc |- *. destruct (t_get T (d ++ [m; c])) as [g|] eqn:Gc; [|discriminate].
+           destruct (sraw_obj_name E T n pr d m c g S Hd Hm Gc) as [Cc _].
+           assert (Oc : is_obj_path (d ++ [m; c]) = true) by (unfold is_obj_path; now rewrite Cc).
+           rewrite L3, Gc; auto.
+           ++ destruct (is_prefix md (d ++ [m; c])) eqn:X; auto. exfalso. rewrite Hmd in X.
+              destruct (dir_prefix_obj dd mm _ Udd Mmm Oc X) as (ny & Ey).
+              rewrite <- !app_assoc1 in Ey. apply app_inj_tail in Ey as [Ey _].
+              rewrite Ey, <- Hmd, is_prefix_refl in Pd1. discriminate.
+           ++ destruct (is_prefix q (d ++ [m; c])) eqn:X; auto.
+              rewrite (user_prefix_of_meta q d m [c] Uq (meta_seg_reserved m Hm) X) in Pdd. discriminate.
+           ++ now apply obj_not_toc.
+  - rewrite O3. intros p Ip. rewrite (L3toc p Ip). now apply TO1.
+  - intros x I. rewrite O3 in I. apply filter_In in I as [I _]. apply (sr_prov _ _ _ _ S x I).
+Qed.
+
+Lemma last_seg_app_ne (a b : path) : b <> [] -> last_seg (a ++ b) = last_seg b.
+Proof.
+  intros NE. destruct (exists_last NE) as (l & x & ->). rewrite app_assoc.
+  now rewrite !last_seg_app.
+Qed.
+
+Lemma resolve_last_gen c p :
+  (last_seg c <> "" \/ c = []) -> last_seg (resolve c p) <> "" \/ resolve c p = [].
+Proof.
+  intros Hc. unfold resolve, norm_segs. destruct (is_abs p); [apply keep_last_nonempty|].
+  destruct (keep_last_nonempty (segs_of p)) as [H|H].
+  - left. rewrite last_seg_app_ne; auto. intros X. rewrite X in H. now apply H.
+  - rewrite H, app_nil_r. exact Hc.
+Qed.
+
+Lemma enter_last T cwd c : enter T cwd = Some c -> last_seg c <> "" \/ c = [].
+Proof.
+  unfold enter. destruct (is_group _); [|discriminate]. intros H. inversion H. apply resolve_last.
+Qed.
+
+Lemma restr_fold_unlink pr : forall l T, Restr T (fold_left (unlink1 pr) l T).
+Proof.
+  induction l as [|o l IH]; intros T; cbn [fold_left]; [apply restr_refl|].
+  eapply restr_trans; [apply restr_unreg|]. apply IH.
+Qed.
+
+Lemma restr_unlink_region T pr region : Restr T (unlink_region T pr region).
+Proof. rewrite unlink_region_eq. apply restr_fold_unlink. Qed.
+
+Lemma delete_raw E st q :
+  SyncRaw E (raw st) (next_id st) (prov st) -> has_reserved q = false ->
+  (last_seg q <> "" \/ q = []) ->
+  SyncRaw E (raw (fst (c_delete st q))) (next_id (fst (c_delete st q))) (prov (fst (c_delete st q))).
+Proof.
+  intros S Uq Lq. unfold c_delete.
+  destruct (t_get (raw st) q) as [[[|v] a]|] eqn:G.
+  - (* group *)
+    apply raw_lift; auto. intros T' H. unfold u_delete in H. destruct q as [|x q']; [discriminate|].
+    destruct (t_has _ (x :: q')); [|discriminate]. inversion H; subst.
+    apply delete_group_raw; auto; [discriminate|now rewrite G].
+  - (* dataset *)
+    apply raw_lift; auto. intros T' H. unfold u_delete in H. destruct q as [|x q']; [discriminate|].
+    destruct (t_has _ (x :: q')); [|discriminate]. inversion H; subst.
+    apply delete_data_raw; auto; [discriminate| |now rewrite G].
+    destruct Lq as [Lq|Lq]; [exact Lq|discriminate].
+  - (* absent: refused *)
+    apply raw_lift; auto. intros T' H. exfalso. unfold u_delete in H.
+    destruct q as [|x q']; [discriminate|].
+    destruct (t_has (unlink_region (raw st) (prov st) (x :: q')) (x :: q')) eqn:X; [|discriminate].
+    pose proof (restr_unlink_region (raw st) (prov st) (x :: q')) as R.
+    unfold t_has in X.
+    destruct (t_get (unlink_region (raw st) (prov st) (x :: q')) (x :: q')) as [o|] eqn:Y;
+      [|discriminate].
+    apply (proj1 R) in Y. congruence.
+Qed.
+
+Lemma raw_step_delete E st cwd p : Sync E st -> RawStep E st (CDelete cwd p).
+Proof.
+  intros S. unfold RawStep, c_step, c_step_gen.
+  destruct (guard cwd) eqn:Gc; [apply (raw_of_sync _ _ S)|].
+  destruct (enter (raw (cs st)) cwd) as [c|] eqn:En; [|apply (raw_of_sync _ _ S)].
+  destruct (guard p) eqn:Gp; [apply (raw_of_sync _ _ S)|].
+  apply delete_raw.
+  - apply (raw_of_sync _ _ S).
+  - apply resolve_user; auto. apply (enter_user _ cwd c Gc En).
+  - apply resolve_last_gen. apply (enter_last _ cwd c En).
+Qed.
+
 (** ** The step theorem, assembled *)
 
 Definition is_heavy (o : sop) : bool :=
   match o with
-  | SOp (CDelete _ _) | SOp (CMove _ _ _) | SOp (CCopy _ _ _ _) | SOp (CCopyInto _ _ _ _ _) => true
+  | SOp (CMove _ _ _) | SOp (CCopy _ _ _ _) | SOp (CCopyInto _ _ _ _ _) => true
   | _ => false
   end.
 
@@ -3410,6 +3837,7 @@ Proof.
   - now apply raw_step_create_dataset.
   - now apply raw_step_require_dataset.
   - now apply raw_step_setitem.
+  - now apply raw_step_delete.
   - now apply raw_step_attr_set.
   - now apply raw_step_attr_del.
   - apply raw_step_same; auto. apply c_get_same.
@@ -3696,3 +4124,4 @@ Section Characterisation.
     apply andb_prop in C as [C C3]. apply andb_prop in C as [_ C2]. auto.
   Qed.
 End Characterisation.
+
